@@ -92,7 +92,8 @@ def faults_for(cn):
             out.append(['text-type', 'not-in-enumeration-xyz'])
         elif tn in G.INVALID_VALUES:
             for v in G.INVALID_VALUES[tn]:
-                out.append(['text-type', v])
+                if v != '':         # an element without character data has no text value to judge (the empty string is an attribute matter)
+                    out.append(['text-type', v])
     for tag, member, ccls, is_list in G.children_of(cls):
         if not G.usable_child(ccls) or G.cname(ccls) not in G.classes():
             continue
